@@ -49,8 +49,8 @@ Proof.
       destruct (ctxt c); [eexists; eexists; split; [reflexivity|discriminate]|].
       destruct (cspace c); eexists; eexists; (split; [reflexivity|discriminate]).
     + eexists; eexists; split; [reflexivity|discriminate].
-  - eexists; eexists; split; [reflexivity|discriminate].
-  - eexists; eexists; split; [reflexivity|discriminate].
+  - destruct (if cinline c then 0 else i) as [|n]; cbn [sp repeat app s list_ascii_of_string]; eexists; eexists; (split; [reflexivity|discriminate]).
+  - destruct (if cinline c then 0 else i) as [|n]; cbn [sp repeat app s list_ascii_of_string]; eexists; eexists; (split; [reflexivity|discriminate]).
 Qed.
 
 Lemma pend_format_last ind P : P <> [] ->
